@@ -32,7 +32,7 @@ from . import c05
 
 ID = 'C06'
 LEVEL = 'exploration'
-BUDGET_S = {'quick': 170, 'thorough': 1700}
+BUDGET_S = {'quick': 300, 'thorough': 1700}
 RULE = ('a case = one translation (whole file, or one entry cell) of a generated workbook; non-trivial = the workbook contains '
         'a malformed / unsupported formula, or a title or text with a character outside [A-Za-z0-9_ ], or a constant that is '
         'neither int nor plain text; deep lane: a case = one (family, size) translation, non-trivial = size >= 8; '
